@@ -91,6 +91,37 @@ class Extractor:
             fr.note('V-TRAIT', 1, REWRITE_CLASSES['V-TRAIT'])
         return fr
 
+    def impl_block(self, rel, ty, trait=None, nth=0):
+        """whole `impl [trait for] ty { .. }` block (ty may be '=Exact<Type>' to match the full self type)."""
+        blocks = self.src(rel).impl_blocks(ty, trait)
+        if len(blocks) <= nth:
+            raise ScanError(f"{rel}: impl {trait or ''} for {ty} not found")
+        s, ob, e, hdr = blocks[nth]
+        fr = self._frag(rel, s, e, f"{rel}:impl {trait + ' for ' if trait else ''}{ty.lstrip('=')}")
+        fr.impl_header = hdr
+        return fr
+
+    def macro_instance(self, rel, name, subst, what):
+        """V-MACRO: the body of the (single-arm) macro_rules! `name` with its metavariables substituted."""
+        src = self.src(rel)
+        s, ob, e = src.macro_rules(name)
+        arm = src.text.find('=>', ob)
+        bo = src.body_open(arm)
+        bc = src.match_close(bo)
+        body = src.text[bo + 1:bc]
+        fr = Fragment(rel, body, f"{rel}:macro_rules! {name} instantiated {subst} ({what})")
+        fr.src_span = (bo + 1, bc)
+        fr.src_line = src.text.count('\n', 0, bo) + 1
+        n = 0
+        for k, v in subst.items():
+            n += fr.text.count(k)
+            fr.text = fr.text.replace(k, v)
+        fr.note('V-MACRO', n, REWRITE_CLASSES['V-MACRO'] + f" {subst}")
+        for cls, rx, rep in STD_REWRITES:
+            fr.sub(cls, rx, rep, detail=REWRITE_CLASSES[cls])
+        self.fragments.append(fr)
+        return fr
+
     def macro_body(self, rel, name):
         s, ob, e = self.src(rel).macro_rules(name)
         return self._frag(rel, s, e, f"{rel}:macro_rules! {name}", std=False)
@@ -151,11 +182,24 @@ def find_obl(lines, line_no, line_end=None):
 
 
 def enclosing_fn(lines, line_no):
+    """name of the function containing line_no; for a method of an `impl .. for Range<u8>` style block the
+    self type is appended so instances of one generic method get distinct obligation names."""
+    name = None
     for k in range(line_no, 0, -1):
-        mm = re.match(r'\s*(?:pub\s+)?(?:proof\s+|spec\s+|exec\s+|open\s+|closed\s+|broadcast\s+)*fn\s+([A-Za-z0-9_]+)', lines[k - 1])
-        if mm:
-            return mm.group(1)
-    return '?'
+        l = lines[k - 1]
+        if name is None:
+            mm = re.match(r'\s*(?:pub\s+)?(?:proof\s+|spec\s+|exec\s+|open\s+|closed\s+|broadcast\s+)*fn\s+([A-Za-z0-9_]+)', l)
+            if mm:
+                name = mm.group(1)
+                if not l.startswith((' ', '\t')):
+                    return name
+        else:
+            mi = re.match(r'\s*impl\b.*\bfor\s+([A-Za-z0-9_:]+<[A-Za-z0-9_]+>)\s*\{?\s*$', l)
+            if mi:
+                return f"{name}[{mi.group(1)}]"
+            if re.match(r'(impl|fn|proof fn|spec fn|trait|struct|enum)\b', l):
+                return name
+    return name or '?'
 
 
 def run_unit(unit_dir, repo, workdir, rlimit=None, extra_args=None, timeout=900):
@@ -253,6 +297,9 @@ def run_unit(unit_dir, repo, workdir, rlimit=None, extra_args=None, timeout=900)
                     sec_line = s2.get('line_start')
         low = msg.lower()
         fn_name = enclosing_fn(lines, ln)
+        if frag is None and sec_frag is not None and sec_line:
+            # primary span is in hand-written spec text (e.g. the ensures of a model trait); name the real function
+            fn_name = enclosing_fn(lines, sec_line)
         obl = find_obl(lines, ln, sp.get('line_end'))
         if not obl:
             kind = ('no_overflow' if 'arithmetic' in low or 'division' in low else
